@@ -3,6 +3,7 @@ import AmqModel.Driver.SlotsEngine
 import AmqModel.Driver.FrameBufEngine
 import AmqModel.Driver.TuneEngine
 import AmqModel.Driver.UrlEngine
+import AmqModel.Driver.MachineEngine
 namespace AmqModel.Driver
 
 def engineByName : String → Option Engine
@@ -15,6 +16,8 @@ def engineByName : String → Option Engine
   | "tune" => some tuneEngine
   | "tune-spec" => some tuneSpecEngine
   | "url" => some urlEngine
+  | "machine" => some machineEngine
+  | "machine-legacy" => some machineLegacyEngine
   | _ => none
 
 end AmqModel.Driver
